@@ -15,7 +15,7 @@ TITLE = 'Amplitude burst labels follow the dual-threshold rule'
 REGISTER = True
 TECHNIQUE = ('Hypothesis property-based testing of compute_features(burst_method=amp): burst_fraction recomputed per cycle from the '
              'trusted neurodsp dual-threshold mask over [last, next] inclusive, labels from a reference >=-threshold + run filter '
-             'with the single resolved min_n_cycles, over all four routings of min_n_cycles; metamorphic threshold monotonicity')
+             'with the single resolved min_n_cycles, over all four routings of min_n_cycles; metamorphic threshold monotonicity; enumerated part with compactly stored sample columns (int16 / uint16 / int32 / float64) whose last cycle ends on the largest value of the dtype')
 LEVEL_TEXT = ('Generated-input search (1k pipelines quick, 30k thorough) over bursty / partially bursting signals, both centrings, '
               'amp_threshes, burst_fraction_threshold (also exactly at and one ulp above occurring fractions), min_n_cycles via '
               'thresholds / burst options / both (different values) / neither, min_burst_duration, filter_kwargs. Exact comparison.')
